@@ -26,6 +26,7 @@ use crate::rt::*;
 use clih::*;
 use jj_lib::backend::{ChangeId, CommitId};
 use jj_lib::commit::Commit;
+use jj_lib::object_id::ObjectId as _;
 use jj_lib::ref_name::WorkspaceName;
 use jj_lib::repo::{ReadonlyRepo, Repo as _, RepoLoader};
 use pollster::FutureExt as _;
@@ -211,6 +212,13 @@ fn build_world(seed: u64, idx: u64, r: &mut Rng, rec0: &mut Rec) -> Result<World
 
 /// one command on a copy of the world
 fn run_op(w: &mut World, r: &mut Rng, op_no: usize, op: Op) -> Option<Rec> {
+    let rec = run_op_in_copy(w, r, op_no, op);
+    // the copy is read (in-process) until the end of the case
+    let _ = std::fs::remove_dir_all(w.env.root.join(format!("op{op_no}")));
+    rec
+}
+
+fn run_op_in_copy(w: &mut World, r: &mut Rng, op_no: usize, op: Op) -> Option<Rec> {
     let mut rec = Rec::new();
     let n = w.hist.len() - 1;
     let h = &w.hist;
@@ -284,12 +292,10 @@ fn run_op(w: &mut World, r: &mut Rng, op_no: usize, op: Op) -> Option<Rec> {
         rec.resp = "err".into();
         rec.tallies.push(("cli.result", "command-failed".into()));
         rec.fails.push(("stack-edit:command-failed".into(), format!("{what}: exit {} {}", res.code, res.err.replace('\n', " | "))));
-        let _ = std::fs::remove_dir_all(&dir);
         return Some(rec);
     }
     let snap1 = match snapshot(&dir) { Ok(s) => s, Err(e) => { rec.resp = "err".into(); rec.fails.push(("stack-edit:repo-unreadable-after-command".into(), format!("{what}: {e}"))); return Some(rec); } };
     let disk1 = disk_state(&dir);
-    let _ = std::fs::remove_dir_all(&dir);
     let mut conv1 = Conv::new(snap1.repo.store().clone());
     // follow every old commit by change id
     let mut now: Vec<Option<Commit>> = vec![Some(old[0].clone())];
@@ -306,11 +312,12 @@ fn run_op(w: &mut World, r: &mut Rng, op_no: usize, op: Op) -> Option<Rec> {
     // the implementation's answer in the model's terms
     let mut shown = vec![];
     let mut undecodable = None;
-    for c in now.iter().chain(std::iter::once(&second).filter(|s| s.is_some())) {
+    // (oracle-only commands may create file contents outside the model's alphabet — absorb moves single lines)
+    for c in now.iter().chain(std::iter::once(&second).filter(|s| s.is_some())).filter(|_| rec.req.is_some()) {
         match c { None => shown.push("x".to_string()), Some(c) => match conv1.read_merged(&c.tree()) { Ok(t) => shown.push(show_trees(&t)), Err(e) => { undecodable = Some(e); break; } } }
     }
     if let Some(e) = undecodable { rec.resp = "undecodable".into(); rec.fails.push(("stack-edit:undecodable".into(), format!("{what}: {e}"))); return Some(rec); }
-    rec.resp = shown.join(",");
+    rec.resp = if rec.req.is_some() { shown.join(",") } else { "oracle-only".to_string() };
     rec.nontrivial = Some(format!("{what}"));
 
     // --- oracle (property text) ---
@@ -374,6 +381,7 @@ fn run_op(w: &mut World, r: &mut Rng, op_no: usize, op: Op) -> Option<Rec> {
     }
     let changed_any = (1..=n).any(|i| !now[i].as_ref().is_some_and(|c| c.id() == old[i].id()));
     rec.tallies.push(("cli.result", if changed_any { "rewrote-commits" } else { "nothing-changed" }.into()));
+    if op == Op::Absorb { rec.tallies.push(("cli.absorb", if changed_any { "moved-hunks" } else { "nothing-to-absorb" }.into())); }
     match bad { None => rec.oracle_ok += 1, Some((s, d)) => rec.fails.push((s.to_string(), d)) }
     Some(rec)
 }
@@ -398,6 +406,12 @@ fn run_world(seed: u64, idx: u64) -> (Vec<Rec>, u64) {
 
 pub fn run(cfg: &Cfg, out: &mut Out) {
     std::panic::set_hook(Box::new(|_| {}));
+    // throw-away workspaces (removed when each world ends): prefer a RAM-backed directory, as C22 does —
+    // every jj command costs several fsyncs (set JJVERIF_KEEP_TMPDIR to keep <root>/scratch/cli-tmp)
+    if std::path::Path::new("/dev/shm").is_dir() && std::env::var_os("JJVERIF_KEEP_TMPDIR").is_none() {
+        // SAFETY: single-threaded at this point
+        unsafe { std::env::remove_var("JJ_VERIF_ROOT"); std::env::set_var("TMPDIR", "/dev/shm"); }
+    }
     let worlds = cfg.extra.iter().find_map(|a| a.strip_prefix("worlds=").and_then(|n| n.parse().ok())).unwrap_or(cfg.n(60, 1200) as usize);
     let seed = cfg.seed;
     let t0 = std::time::Instant::now();
